@@ -3,7 +3,7 @@ import Nstd.Future.Model
 import Std.Data.HashSet
 /-
   Line protocol of the Future area (replay of a controlled-scheduler trace on the model).
-    cfg q=<n> min=<n> max=<n> lazy=<0|1> tick=<ms> sp=<n> rep=<0|1> | <client ops> | <client ops> ...
+    cfg q=<n> min=<n> max=<n> lazy=<0|1> tick=<ms> sp=<n> rep=<0|1> hooks=<0|1> | <client ops> | <client ops> ...
         -> initial state; the main thread runs on to its first scheduling point; prints its events
     S <tid>      -> `S <tid> en=<enabled threads>` + the O/E/X lines of that scheduler step (macroStep)
     V            -> [`D <blocked threads>`] `V <DONE|DEADLOCK|RUNNING> steps=<n>`
@@ -19,6 +19,7 @@ structure DState where
   st : Option State := none
   steps : Nat := 0
   micro : List Tid := []      -- the micro-step schedule executed so far (reverse order)
+  hooks : Bool := false       -- the library carries the yield hooks at plain accesses: those frames are scheduling points too
 
 def kvNat (ws : List String) (key : String) (dflt : Nat) : Nat :=
   match ws.find? (fun w => w.startsWith (key ++ "=")) with
@@ -68,12 +69,61 @@ def parseCfg (ws : List String) : Option Config :=
                 tick := kvNat hd "tick" 0, spurious := kvNat hd "sp" 0, repaired := kvNat hd "rep" 0 = 1,
                 scripts := ops.map (fun sc => sc.filterMap id) }
 
+/-- with the source hooks (fixes/future/hook-0001) the plain volatile accesses of the pool are scheduling points as
+    well; the line the scheduler prints for such a point -/
+def hookLine (s : State) : Frame → Option String
+  | .ring (.pushRead _) => some "O rd q.tail 0"
+  | .ring (.pushChk _ t) => s.pool.map (fun p => s!"O rd slot{slotOf p t}.tail 0")
+  | .ring (.pushData _ t) => s.pool.map (fun p => s!"O wr slot{slotOf p t}.data 0")
+  | .ring .popRead => some "O rd q.head 0"
+  | .ring (.popChk h) => s.pool.map (fun p => s!"O rd slot{slotOf p h}.head 0")
+  | .ring (.popData h) => s.pool.map (fun p => s!"O rd slot{slotOf p h}.data 0")
+  | .runRdProc _ => some "O rd processed 0"
+  | .runRdTc _ => some "O rd threadcount 0"
+  | .fWait fs => some s!"O rd {fsName fs}.state 0"
+  | .fRstLoad fs => some s!"O rd {fsName fs}.state 0"
+  | .cRdTp _ => some "O rd tp 0"
+  | .cRdTp2 _ => some "O rd tp 0"
+  | .cUnlockTp _ => some "O wr tplock 0"
+  | _ => none
+
+def isSyncH (hooks : Bool) (s : State) (fr : Frame) : Bool := fr.isSync || (hooks && (hookLine s fr).isSome)
+
+def topIsSyncH (hooks : Bool) (s : State) (t : Tid) : Bool :=
+  match s.threads t with
+  | some { stack := fr :: _, finished := false, .. } => isSyncH hooks s fr
+  | _ => false
+
+/-- `runOn` with the hook frames as additional scheduling points; also counts the micro-steps -/
+def runOnH (hooks : Bool) : Nat → State → Tid → List String → Nat → State × List String × Nat
+  | 0, s, _, acc, n => (withFault s "runOn: out of fuel", acc, n)
+  | fuel + 1, s, t, acc, n =>
+    match s.threads t with
+    | some { stack := fr :: _, finished := false, .. } =>
+      if isSyncH hooks s fr then (s, acc, n)
+      else match step s t with
+        | some (s', o) => runOnH hooks fuel s' t (acc ++ o) (n + 1)
+        | none => (s, acc, n)
+    | _ => (s, acc, n)
+
+def macroStepH (hooks : Bool) (s : State) (t : Tid) : Option (State × List String × Nat) :=
+  match s.threads t with
+  | some { stack := fr :: _, finished := false, .. } =>
+    if isSyncH hooks s fr then
+      match step s t with
+      | some (s', o) =>
+        let pre := if fr.isSync then [] else (hookLine s fr).toList
+        some (runOnH hooks 10000 s' t (pre ++ o) 1)
+      | none => none
+    else none
+  | _ => none
+
 def liveThreads (s : State) : List Tid :=
   (List.range s.nthreads).filter (fun t => match s.threads t with
     | some th => !th.finished
     | none => false)
 
-def enabledList (s : State) : List Tid := (liveThreads s).filter (fun t => topIsSync s t && enabled s t)
+def enabledList (hooks : Bool) (s : State) : List Tid := (liveThreads s).filter (fun t => topIsSyncH hooks s t && enabled s t)
 
 def pendName (s : State) (t : Tid) : String :=
   match s.threads t with
@@ -237,19 +287,17 @@ def stepLine (d : DState) (ws : List String) : DState × String :=
     match parseCfg rest with
     | none => ({}, "bad-op")
     | some cfg =>
-      let (s, o) := runOn 10000 (State.init cfg) 0 []
-      ({ st := some s, steps := 0, micro := List.replicate (runOnCount 10000 (State.init cfg) 0 0) 0 }, "\n".intercalate ("ok" :: o))
+      let hooks := kvNat ((splitBars rest).headD []) "hooks" 0 = 1
+      let (s, o, n) := runOnH hooks 10000 (State.init cfg) 0 [] 0
+      ({ st := some s, steps := 0, micro := List.replicate n 0, hooks := hooks }, "\n".intercalate ("ok" :: o))
   | ["S", ts] =>
     match d.st, ts.toNat? with
     | some s, some t =>
-      let en := enabledList s
+      let en := enabledList d.hooks s
       let hdr := s!"S {t} en=" ++ ",".intercalate (en.map toString)
-      match macroStep s t with
-      | some (s', o) =>
-        let k := match step s t with
-          | some (s1, _) => 1 + runOnCount 10000 s1 t 0
-          | none => 0
-        ({ st := some (if (d.steps + 1) % 32 = 0 then compact s' else s'), steps := d.steps + 1, micro := List.replicate k t ++ d.micro },
+      match macroStepH d.hooks s t with
+      | some (s', o, k) =>
+        ({ d with st := some (if (d.steps + 1) % 32 = 0 then compact s' else s'), steps := d.steps + 1, micro := List.replicate k t ++ d.micro },
           "\n".intercalate (hdr :: o ++ faultLines s'))
       | none => (d, hdr ++ s!"\nMODEL-DISABLED {t}")
     | _, _ => (d, "bad-op")
@@ -258,7 +306,7 @@ def stepLine (d : DState) (ws : List String) : DState × String :=
     | some s =>
       let live := liveThreads s
       if live.isEmpty then (d, s!"V DONE steps={d.steps}")
-      else if (enabledList s).isEmpty then
+      else if (enabledList d.hooks s).isEmpty then
         (d, "D " ++ " ".intercalate (live.map (fun t => s!"t{t}:{pendName s t}")) ++ s!"\nV DEADLOCK steps={d.steps}")
       else (d, s!"V RUNNING steps={d.steps}")
     | none => (d, "bad-op")
